@@ -59,7 +59,7 @@ func (vfs *OrefaFS) Chdir(dir string) error {
 	vfs.mu.RUnlock()
 
 	if !ok {
-		return &fs.PathError{Op: op, Path: dir, Err: vfs.err.NoSuchFile}
+		return &fs.PathError{Op: op, Path: dir, Err: vfs.errNotFound(absPath, vfs.err.NoSuchFile)}
 	}
 
 	if !nd.mode.IsDir() {
@@ -104,7 +104,7 @@ func (vfs *OrefaFS) Chmod(name string, mode fs.FileMode) error {
 	vfs.mu.RUnlock()
 
 	if !ok {
-		return &fs.PathError{Op: op, Path: name, Err: vfs.err.NoSuchFile}
+		return &fs.PathError{Op: op, Path: name, Err: vfs.errNotFound(absPath, vfs.err.NoSuchFile)}
 	}
 
 	nd.mu.Lock()
@@ -135,7 +135,7 @@ func (vfs *OrefaFS) Chown(name string, uid, gid int) error {
 	vfs.mu.RUnlock()
 
 	if !ok {
-		return &fs.PathError{Op: op, Path: name, Err: vfs.err.NoSuchFile}
+		return &fs.PathError{Op: op, Path: name, Err: vfs.errNotFound(absPath, vfs.err.NoSuchFile)}
 	}
 
 	nd.mu.Lock()
@@ -161,7 +161,7 @@ func (vfs *OrefaFS) Chtimes(name string, atime, mtime time.Time) error {
 	vfs.mu.RUnlock()
 
 	if !ok {
-		return &fs.PathError{Op: op, Path: name, Err: vfs.err.NoSuchFile}
+		return &fs.PathError{Op: op, Path: name, Err: vfs.errNotFound(absPath, vfs.err.NoSuchFile)}
 	}
 
 	nd.mu.Lock()
@@ -311,7 +311,7 @@ func (vfs *OrefaFS) Lchown(name string, uid, gid int) error {
 	vfs.mu.RUnlock()
 
 	if !ok {
-		return &fs.PathError{Op: op, Path: name, Err: vfs.err.NoSuchFile}
+		return &fs.PathError{Op: op, Path: name, Err: vfs.errNotFound(absPath, vfs.err.NoSuchFile)}
 	}
 
 	nd.mu.Lock()
@@ -338,7 +338,7 @@ func (vfs *OrefaFS) Link(oldname, newname string) error {
 	vfs.mu.RUnlock()
 
 	if !oChildOk {
-		err := vfs.err.NoSuchFile
+		err := vfs.errNotFound(oAbsPath, vfs.err.NoSuchFile)
 
 		if vfs.OSType() == avfs.OsWindows {
 			oDirName, _ := avfs.SplitAbs(vfs, oAbsPath)
@@ -356,7 +356,7 @@ func (vfs *OrefaFS) Link(oldname, newname string) error {
 	}
 
 	if !nParentOk {
-		return &os.LinkError{Op: op, Old: oldname, New: newname, Err: vfs.err.NoSuchFile}
+		return &os.LinkError{Op: op, Old: oldname, New: newname, Err: vfs.errNotFound(nAbsPath, vfs.err.NoSuchFile)}
 	}
 
 	oChild.mu.Lock()
@@ -592,7 +592,7 @@ func (vfs *OrefaFS) OpenFile(name string, flag int, perm fs.FileMode) (avfs.File
 
 	if !childOk {
 		if !parentOk {
-			return (*OrefaFile)(nil), &fs.PathError{Op: op, Path: name, Err: vfs.err.NoSuchDir}
+			return (*OrefaFile)(nil), &fs.PathError{Op: op, Path: name, Err: vfs.errNotFound(absPath, vfs.err.NoSuchDir)}
 		}
 
 		if !parent.mode.IsDir() {
@@ -821,8 +821,12 @@ func (vfs *OrefaFS) Rename(oldname, newname string) error {
 	nParent, nParentOk := vfs.nodes[nDirName]
 	vfs.mu.RUnlock()
 
-	if !oChildOk || !oParentOk || !nParentOk {
-		return &os.LinkError{Op: op, Old: oldname, New: newname, Err: vfs.err.NoSuchFile}
+	if !oChildOk || !oParentOk {
+		return &os.LinkError{Op: op, Old: oldname, New: newname, Err: vfs.errNotFound(oAbsPath, vfs.err.NoSuchFile)}
+	}
+
+	if !nParentOk {
+		return &os.LinkError{Op: op, Old: oldname, New: newname, Err: vfs.errNotFound(nAbsPath, vfs.err.NoSuchFile)}
 	}
 
 	if oChild.mode.IsDir() && strings.HasPrefix(nAbsPath, oAbsPath+string(vfs.PathSeparator())) {
@@ -937,7 +941,7 @@ func (vfs *OrefaFS) stat(path, op string) (fs.FileInfo, error) {
 		vfs.mu.RUnlock()
 
 		if !parentOk {
-			return nil, &fs.PathError{Op: op, Path: path, Err: vfs.err.NoSuchDir}
+			return nil, &fs.PathError{Op: op, Path: path, Err: vfs.errNotFound(absPath, vfs.err.NoSuchDir)}
 		}
 
 		if parent.mode.IsDir() {
@@ -1014,7 +1018,7 @@ func (vfs *OrefaFS) Truncate(name string, size int64) error {
 			op = "open"
 		}
 
-		return &fs.PathError{Op: op, Path: name, Err: vfs.err.NoSuchFile}
+		return &fs.PathError{Op: op, Path: name, Err: vfs.errNotFound(absPath, vfs.err.NoSuchFile)}
 	}
 
 	if child.mode.IsDir() {
